@@ -2,8 +2,10 @@
 """Copy confirmed seeded changes from /tmp/mut/out into /verif/seeded/<prop>-<x>/ (patch, demo, meta)."""
 import json, shutil, sys
 from pathlib import Path
-out = Path('/tmp/mut/out'); dst = Path('/verif/seeded')
-for d in sorted(out.glob('C*/[ab]')):
+import os
+base = Path(os.environ.get('MUT_BASE', '/tmp/mut'))
+out = base / 'out'; dst = Path('/verif/seeded')
+for d in sorted(out.glob('C*/[abcd]')):
     c = d / 'confirm.json'
     if not c.exists():
         continue
@@ -18,8 +20,8 @@ for d in sorted(out.glob('C*/[ab]')):
             shutil.copy(f, t / f.name)
     meta = json.loads((d / 'meta.json').read_text()) if (d / 'meta.json').exists() else {}
     meta['breaks_property'] = d.parent.name
-    meta['confirmed_by_me'] = dict(where=f'scratch worktree /tmp/mut/{d.parent.name} at pinned commit d32b495',
-                                   ran=['tools/confirm_mutant.sh %s %s' % (d.parent.name, d.name)], **conf)
+    meta['confirmed_by_me'] = dict(where=f'scratch worktree {base}/{d.parent.name} at ' + ('pinned commit d32b495' if str(base) == '/tmp/mut' else 'the repaired tree e0d3d6e'),
+                                   ran=[('MUT_BASE=%s ' % base if str(base) != '/tmp/mut' else '') + 'tools/confirm_mutant.sh %s %s' % (d.parent.name, d.name)], **conf)
     old = json.loads((t / 'meta.json').read_text()) if (t / 'meta.json').exists() else {}
     for k in ('detected_by', 'check_result'):
         if k in old: meta[k] = old[k]
